@@ -164,8 +164,9 @@ def rule_r4(facts, col):
                     continue
                 found = True
                 r = body.reachable(tgt)
+                allv = [peel(x, through_try=False) for b2, si, x in assigns_to_return(body) if b2 in r]
                 vals = [peel(x, through_try=False) for b2, si, x in assigns_to_return(body) if b2 in r and not _also_other(body, s, tgt, b2)]
-                if vals and all(is_const(v, want) for v in vals):
+                if (allv and all(is_const(v, want) for v in allv)) or (vals and all(is_const(v, want) for v in vals)):
                     col.ok("C16.R4", key, body.where(s), "Infinite arm returns constant %s" % want)
                 else:
                     col.bad("C16.R4", key, body.where(s), "Repeat::%s() does not return constant %s for an infinite repeat" % (name, want), {})
@@ -271,7 +272,7 @@ def rule_r6(facts, col):
     for body in facts.impl_bodies(BLOCK_TRAIT, "work"):
         if body.self_adt not in rb:
             continue
-        if not list(body.calls_to(READ)):
+        if not any(list(b.calls_to(READ)) for b in [body] + adt_helpers(facts, body)):
             continue
         # again() sites: in work() itself, or in a helper of the same ADT (then judged at each of its call sites)
         sites = []
@@ -385,36 +386,56 @@ def rule_r7(facts, col):
                             continue
                         ncons += 1
                         fl = _root_local_of(cb, ops[ffield])
-                        # last absolute seek on that file local that dominates the aggregate
-                        init = None
-                        for sb, stt in cb.calls():
-                            if stt["f"].get("name") in ("seek", "rewind") and "Seek" in (stt["f"].get("q") or "") and cb.dominates(sb, b2) \
-                                    and _root_local_of(cb, stt["args"][0]) == fl:
-                                if init is None or cb.dominates(init[0], sb):
-                                    init = (sb, stt)
-                        pc = _seek_target(cb, init[1]) if init else E("const", v=0, ty="u64")
-                        if pc is None:
-                            continue     # relative seek: not judged
-                        # value of work()'s target under this constructor's stored fields
                         twp = peel(tw, through_try=False)
                         fp = self_field_path(twp)
                         if twp.k == "const":
-                            val = twp
+                            val0 = twp
                         elif fp and fp[0] in ops:
-                            val = cb.operand_expr(ops[fp[0]])
+                            val0 = cb.operand_expr(ops[fp[0]])
                             for comp in fp[1:]:
-                                pv = peel(val, through_try=False)
+                                pv = peel(val0, through_try=False)
                                 if pv.k == "agg" and pv.args and comp.isdigit() and int(comp) < len(pv.args):
-                                    val = pv.args[int(comp)]
+                                    val0 = pv.args[int(comp)]
                                 else:
-                                    val = E("field", a=pv, name=comp, idx=int(comp) if comp.isdigit() else None)
+                                    val0 = E("field", a=pv, name=comp, idx=int(comp) if comp.isdigit() else None)
                         else:
                             continue
-                        pv, pp = peel(val, through_try=False), peel(pc, through_try=False)
-                        same = (pv.k == "const" and pp.k == "const" and pv.v == pp.v) or same_expr(pv, pp) or show(pv) == show(pp)
-                        if not same:
-                            probs.append("%s leaves the file at %s but work() rewinds to %s (= %s there)" % (
-                                cb.name, show(pp)[:40], show(twp)[:40], show(pv)[:40]))
+                        # contexts: the constructor itself, or - when the file is handed in as a parameter (a shared
+                        # `from_parts(file, ..)` helper) - each of its call sites
+                        contexts = []
+                        own_seeks = [(sb, stt) for sb, stt in cb.calls() if stt["f"].get("name") in ("seek", "rewind")
+                                     and "Seek" in (stt["f"].get("q") or "") and _root_local_of(cb, stt["args"][0]) == fl]
+                        if fl is not None and 1 <= fl <= cb.argc and not own_seeks:
+                            sites = call_sites_of(facts, cb) or []
+                            for ccb, cbb, actual in sites:
+                                raw = None
+                                for cb2, t2 in ccb.calls():
+                                    if cb2 == cbb:
+                                        raw = t2["args"][fl - 1]
+                                contexts.append((ccb, cbb, _root_local_of(ccb, raw) if raw else None, subst_params(peel(val0, through_try=False), actual)))
+                            if not sites:
+                                continue
+                        else:
+                            contexts.append((cb, b2, fl, val0))
+                        for xb, xbb, xfl, val in contexts:
+                            init = None
+                            for sb, stt in xb.calls():
+                                if stt["f"].get("name") in ("seek", "rewind") and "Seek" in (stt["f"].get("q") or "") and xb.dominates(sb, xbb) \
+                                        and _root_local_of(xb, stt["args"][0]) == xfl:
+                                    if init is None or xb.dominates(init[0], sb):
+                                        init = (sb, stt)
+                            pc = _seek_target(xb, init[1]) if init else E("const", v=0, ty="u64")
+                            if pc is None:
+                                continue     # relative seek: not judged
+                            pv, pp = peel(val, through_try=False), peel(pc, through_try=False)
+                            if pv.k == "field" and pv.a is not None and peel(pv.a, through_try=False).k == "agg" and pv.idx is not None:
+                                inner = peel(pv.a, through_try=False)
+                                if inner.args and pv.idx < len(inner.args):
+                                    pv = peel(inner.args[pv.idx], through_try=False)
+                            same = (pv.k == "const" and pp.k == "const" and pv.v == pp.v) or same_expr(pv, pp) or show(pv) == show(pp)
+                            if not same:
+                                probs.append("%s leaves the file at %s but work() rewinds to %s (= %s there)" % (
+                                    xb.name, show(pp)[:40], show(twp)[:40], show(pv)[:40]))
             if probs:
                 col.bad("C16.R7", key, body.where(bb),
                         "the position a new repetition starts reading from differs from where a constructor positioned the data: %s - "
@@ -428,17 +449,26 @@ def rule_r8(facts, col):
     """end-of-data is REPORTED: Repeat::done()==true, Repeat::again()==false and (for byte sources) read()==0 without a
     further repetition lead to the verdict EOF (or an error) and to nothing else"""
     rb = repeat_blocks(facts)
-    for body in facts.impl_bodies(BLOCK_TRAIT, "work"):
+    works = list(facts.impl_bodies(BLOCK_TRAIT, "work"))
+    # methods of the same types that consult Repeat themselves (e.g. an extracted `end_of_file()`): judged like work(), and
+    # a call to one of them from work() counts as 'the repetition decision is taken there'
+    deleg = {}
+    for b in facts.bodies:
+        if b.kind != "closure" and b.self_adt in rb and b.name != "work" and (list(b.calls_to(AGAIN)) or list(b.calls_to(DONE))) \
+                and any(v != "?" for _, v, _ in effects.verdict_defs(b)):
+            deleg[b.q] = b
+    for body in works + list(deleg.values()):
         has_read = bool(list(body.calls_to(READ)))
         if body.self_adt not in rb and not has_read:
             continue
-        vd = effects.verdict_defs(body)
+        deleg_blocks = {bb for bb, t in body.calls() if any(q in deleg for q in Body.callee_qs(t))}
+        vd = [x for x in effects.verdict_defs(body) if x[0] not in deleg_blocks]
         by_bb = {}
         for vb, verdict, e in vd:
             by_bb.setdefault(vb, set()).add(verdict)
 
         def verdicts_from(start, cut=()):
-            r = body.reachable(start, edge_filter=lambda a_, b_: (a_, b_) not in cut)
+            r = body.reachable(start, avoid=deleg_blocks - {start}, edge_filter=lambda a_, b_: (a_, b_) not in cut)
             out = set()
             for b in r:
                 out |= by_bb.get(b, set())
